@@ -393,6 +393,66 @@ class Fn:
         self._live = live
         return live
 
+    # --- uses
+    def uses_of(self, local):
+        """list of (block, kind) where the local is read: kind in rhs|arg|switch|drop|assert|lhs-proj|ret"""
+        out = []
+
+        def in_op(op):
+            return bool(op) and op[0] in ('c', 'm') and (op[1][0] == local or any(isinstance(e, list) and e[0] == 'i' and e[1] == local for e in op[1][1:]))
+
+        def in_pl(pl):
+            return pl[0] == local
+
+        for bi, blk in enumerate(self.blocks):
+            if blk['cleanup']:
+                continue
+            for s in blk['s']:
+                if s['k'] == 'assign':
+                    rv = s['rv']
+                    r = rv['r']
+                    hit = False
+                    if r in ('use', 'repeat', 'cast'):
+                        hit = in_op(rv['o'])
+                    elif r in ('ref', 'rawptr', 'discr'):
+                        hit = in_pl(rv['p'])
+                    elif r == 'bin':
+                        hit = in_op(rv['a']) or in_op(rv['b'])
+                    elif r == 'un':
+                        hit = in_op(rv['a'])
+                    elif r == 'agg':
+                        hit = any(in_op(o) for o in rv['o'])
+                    if hit:
+                        out.append((bi, 'rhs'))
+                if not is_local(s['lhs']) and s['lhs'][0] == local:
+                    out.append((bi, 'lhs-proj'))
+            t = blk['t']
+            k = t['t']
+            if k == 'switch' and in_op(t['discr']):
+                out.append((bi, 'switch'))
+            elif k == 'call':
+                if any(in_op(a) for a in t['args']):
+                    out.append((bi, 'arg'))
+                if t['callee'].get('place') and in_pl(t['callee']['place']):
+                    out.append((bi, 'arg'))
+            elif k == 'drop' and in_pl(t['p']):
+                out.append((bi, 'drop'))
+            elif k == 'assert' and in_op(t['cond']):
+                out.append((bi, 'assert'))
+            elif k == 'return' and local == 0:
+                out.append((bi, 'ret'))
+        return out
+
+    def result_discarded(self, call_block):
+        """the value returned by the call terminating `call_block` is never read (only dropped)"""
+        t = self.blocks[call_block]['t']
+        d = t['dest']
+        if not is_local(d):
+            return False
+        if d[0] == 0:
+            return False
+        return all(k == 'drop' for _, k in self.uses_of(d[0]))
+
     # --- calls
     def calls(self, include_cleanup=False):
         for bi, blk in enumerate(self.blocks):
